@@ -50,6 +50,51 @@ package node_affinities
 //@   ensures [processedOnlyGrow] forall u common_info.PodID :: old(u in naf.processedVictims) ==> u in naf.processedVictims
 //@ end
 
+// ---- C10: the constructor is total in its scenario argument (helper scb) -------------------------------------
+// NewPodAccumulatedScenarioBuilder passes scenario == nil whenever the (partial) pending job has nothing to allocate;
+// the constructor answers nil then. No precondition on a nil scenario: its no-panic obligations are checked for
+// scenario == nil too. For a non-nil scenario the type invariant of ByNodeScenario (embedded *BaseScenario set by
+// NewByNodeScenario, its only constructor) and "pending / victim tasks are pod-map values, never nil" are required.
+//@ define tasksNonNil(ts []*pod_info.PodInfo) bool = forall i int :: 0 <= i && i < len(ts) ==> ts[i] != nil
+
+//@ func preemptorHasPodsWithNodeAffinities
+//@   props C10
+//@   requires scenario != nil && scenario.BaseScenario != nil
+//@   requires tasksNonNil(scenario.BaseScenario.pendingTasks)
+//@   pure
+//@   loop 1
+//@     invariant 0 - 1 <= rangeindex && rangeindex < len(scenario.BaseScenario.pendingTasks)
+//@     invariant forall i int :: 0 <= i && i <= rangeindex ==> !reqAff(scenario.BaseScenario.pendingTasks[i])
+//@     decreases len(scenario.BaseScenario.pendingTasks) - rangeindex
+//@   ensures [noAffinityFalse] (forall i int :: 0 <= i && i < len(scenario.BaseScenario.pendingTasks) ==> !reqAff(scenario.BaseScenario.pendingTasks[i])) ==> !result
+//@ end
+
+// k8sNodeInfoForNode (vendored k8sframework.NewNodeInfo / SetNode) is outside the subset: initNodeMaps is trusted with
+// the preconditions its body needs (the four maps it writes exist, the session skeleton, no nil NodeInfo in either map).
+//@ func (*NodeAffinitiesFilter).initNodeMaps
+//@   props C10
+//@   trusted
+//@   note trusted: calls k8sframework.NewNodeInfo / (*NodeInfo).SetNode of the vendored kube-scheduler per cluster node (outside the subset); the preconditions are what the body dereferences and are checked at the call site in the constructor
+//@   requires naf != nil && naf.feasibleNodes != nil && naf.allNodes != nil && naf.allNodeInfos != nil
+//@   requires session != nil && session.ClusterInfo != nil
+//@   requires forall k in feasibleNodeInfos :: feasibleNodeInfos[k] != nil
+//@   requires forall k in session.ClusterInfo.Nodes :: session.ClusterInfo.Nodes[k] != nil
+//@   modifies naf.feasibleNodes[*], naf.allNodes[*], naf.allNodeInfos[*]
+//@ end
+
+//@ func NewNodeAffinitiesFilter
+//@   props C10
+//@   requires scenario != nil ==> scenario.BaseScenario != nil
+//@   requires scenario != nil ==> tasksNonNil(scenario.BaseScenario.pendingTasks) && tasksNonNil(scenario.BaseScenario.potentialVictimsTasks)
+//@   requires scenario != nil ==> session != nil && session.ClusterInfo != nil && session.Cache != nil
+//@   requires scenario != nil ==> (forall k in feasibleNodeInfos :: feasibleNodeInfos[k] != nil) && (forall k in session.ClusterInfo.Nodes :: session.ClusterInfo.Nodes[k] != nil)
+//@   note the preconditions for a non-nil scenario are the type invariant of ByNodeScenario (NewByNodeScenario always sets the embedded *BaseScenario; pending / potential victim tasks are pod-map values), the session skeleton and "node maps hold no nil NodeInfo"; nothing is required of a nil scenario
+//@   modifies *
+//@   ensures [nilScenarioNoFilter] scenario == nil ==> result == nil
+//@   ensures [noAffinityNoFilter] scenario != nil && (forall i int :: 0 <= i && i < len(scenario.BaseScenario.pendingTasks) ==> !reqAff(scenario.BaseScenario.pendingTasks[i])) ==> result == nil
+//@   ensures [filterHasMaps] result != nil ==> result.processedVictims != nil && result.feasibleNodes != nil
+//@ end
+
 //@ func (*NodeAffinitiesFilter).updateStateWithScenario
 //@   props C05 C10
 //@   requires naf != nil && naf.processedVictims != nil && naf.feasibleNodes != nil && scenario != nil && scenario.BaseScenario != nil
